@@ -254,7 +254,7 @@ func runSched(rec *SchedRec) {
 
 var errFault = errors.New("injected I/O fault")
 
-// budgetWriter accepts exactly `budget` bytes.  mode "short": the write that crosses the budget stores what fits
+// budgetWriter accepts exactly `budget` bytes (mode "once": fails exactly one write, then recovers).  mode "short": the write that crosses the budget stores what fits
 // and returns (n < len(p), error); mode "next": it stores nothing of that write and returns (0, error).
 type budgetWriter struct {
 	budget int
@@ -264,8 +264,12 @@ type budgetWriter struct {
 }
 
 func (w *budgetWriter) Write(p []byte) (int, error) {
-	if w.failed {
+	if w.failed && w.mode != "once" {
 		return 0, errFault
+	}
+	if w.failed { // mode "once": a transient fault, the destination accepts everything again afterwards
+		w.got += len(p)
+		return len(p), nil
 	}
 	if w.got+len(p) <= w.budget {
 		w.got += len(p)
@@ -318,7 +322,7 @@ func runWFault(rec *WFaultRec) {
 		}
 	}
 	for _, k := range ks {
-		for _, mode := range []string{"short", "next"} {
+		for _, mode := range []string{"short", "next", "once"} {
 			w := &budgetWriter{budget: k, mode: mode}
 			f := WFault{K: k, Mode: mode}
 			f.Pan = hx.Catch(func() {
